@@ -138,7 +138,8 @@ int main(int argc, char **argv)
 {
   Args args(argc, argv);
   bool thorough = args.thorough();
-  int L = thorough ? 4 : 3;
+  int L_short = thorough ? 4 : 3;
+  int L = L_short;
   std::vector<Conf> confs = {
       {"1d-full1", 1, false, 0, 1, true, 0, 0, 0, false},
       {"1d-ramp-1-3", 1, false, 1, 3, true, 0, 0, 0, false},
@@ -162,10 +163,22 @@ int main(int argc, char **argv)
       Conf const &c = confs[ci];
       if (only.size() && only != c.name) continue;
       std::string conf = conf_text(c);
-      for (long w = shard; w < nw; w += nsh) {
-        std::vector<Letter> word(L);
-        long q = w;
-        for (int i = 0; i < L; i++) { word[i] = Letter{int(q % 10) / 2, int(q % 10) % 2}; q /= 10; }
+      // all words of length L, then two long scripted words (30 letters; thorough 48): many samples per bin, ramps crossed,
+      // repeated excursions out of the grid
+      long nlong = 2;
+      for (long wq = shard; wq < nw + nlong; wq += nsh) {
+        long w = wq;
+        int L = L_short;
+        std::vector<Letter> word;
+        if (wq >= nw) {
+          L = thorough ? 48 : 30;
+          word.resize(L);
+          for (int i = 0; i < L; i++) { int q = (int) (((wq - nw + 3) * (long) i * i + 7 * i + 2 * (wq - nw)) % 10); word[i] = Letter{q / 2, q % 2}; }
+        } else {
+          word.resize(L);
+          long q = w;
+          for (int i = 0; i < L; i++) { word[i] = Letter{int(q % 10) / 2, int(q % 10) % 2}; q /= 10; }
+        }
         std::string wj = "[";
         for (int i = 0; i < L; i++) wj += std::string(i ? "," : "") + "[" + num(REG[word[i].reg]) + "," + num(FRC[word[i].frc]) + "]";
         wj += "]";
